@@ -122,11 +122,46 @@ func genNode(t *rapid.T, depth int, mapOnly bool) Node {
 	return n
 }
 
+// perturb copies a map node: every entry is kept, dropped, replaced by a fresh
+// value, or (maps) perturbed recursively; a new key may be added.
+func perturb(t *rapid.T, n Node, depth int) Node {
+	if n.K != "map" {
+		return genNode(t, depth, false)
+	}
+	out := Node{K: "map"}
+	seen := map[string]bool{}
+	for _, kv := range n.M {
+		switch rapid.IntRange(0, 4).Draw(t, "perturb") {
+		case 0:
+			out.M = append(out.M, kv)
+		case 1:
+			continue
+		case 2:
+			out.M = append(out.M, KV{kv.Key, genNode(t, depth+1, false)})
+		default:
+			out.M = append(out.M, KV{kv.Key, perturb(t, kv.Val, depth+1)})
+		}
+		seen[kv.Key] = true
+	}
+	if rapid.Bool().Draw(t, "addkey") {
+		if k := rapid.SampledFrom(mergeKeys).Draw(t, "newkey"); !seen[k] {
+			out.M = append(out.M, KV{k, genNode(t, depth+1, false)})
+		}
+	}
+	return out
+}
+
 func genM(t *rapid.T) MScript {
 	s := MScript{Mode: rapid.SampledFrom([]string{"raw", "raw", "yaml", "nil"}).Draw(t, "mode")}
 	for i, n := 0, rapid.IntRange(1, 4).Draw(t, "nsources"); i < n; i++ {
 		if rapid.IntRange(0, 5).Draw(t, "empty") == 0 {
 			s.Sources = append(s.Sources, Node{K: "map"})
+			continue
+		}
+		if i > 0 && rapid.Bool().Draw(t, "derived") {
+			// a perturbed copy of an earlier source: same paths, other values (deep overlaps)
+			base := s.Sources[rapid.IntRange(0, i-1).Draw(t, "base")]
+			s.Sources = append(s.Sources, perturb(t, base, 0))
 			continue
 		}
 		s.Sources = append(s.Sources, genNode(t, 0, true))
@@ -325,5 +360,5 @@ func judgeM(s *MScript) (bool, *vt.Finding) {
 }
 
 func TestMerge(t *testing.T) {
-	vt.Run(t, cM, vt.N(40000, 1500000), genM, runM)
+	vt.Run(t, cM, vt.N(30000, 1500000), genM, runM)
 }
